@@ -390,6 +390,15 @@ impl<'a> Gen<'a> {
         }
     }
     /// an integer field able to hold `v`
+    /// length of a delimited / trailing byte block: small most of the time, sometimes at the edges of the
+    /// 8-, 12- and 16-bit ranges and beyond (a block has no size limit of its own)
+    fn blob_len(&mut self, small_max: u64) -> usize {
+        if self.r.chance(1, 24) {
+            *self.r.pick(&[127usize, 128, 255, 256, 257, 4095, 4096, 16383, 16384, 32767, 32768, 65534, 65535, 65536, 65537, 70000, 131072, 200001])
+        } else {
+            self.r.range(0, small_max) as usize
+        }
+    }
     fn int_holding(&mut self, v: usize) -> D {
         let le = self.r.chance(1, 2);
         if v < 256 && self.r.chance(1, 3) {
@@ -461,7 +470,7 @@ impl<'a> Gen<'a> {
                         0 | 1 => {
                             let n = match self.r.below(4) {
                                 0 => 0,
-                                _ => self.r.range(0, 40) as usize,
+                                _ => self.blob_len(40),
                             };
                             D::Bytes(self.r.bytes(n), true)
                         }
@@ -563,7 +572,7 @@ impl<'a> Gen<'a> {
             }
             3 => {
                 // trailing read-to-end byte block
-                let n = self.r.range(0, 30) as usize;
+                let n = self.blob_len(30);
                 f.push(Field { name: self.name(), d: D::Bytes(self.r.bytes(n), true), rel: Rel::None });
                 self_delimiting = false;
             }
